@@ -175,6 +175,18 @@ def sessStep (s : S) (f : List String) : S × List String :=
     match parsePolicy' pol, s.conn with
     | some p, some c => ({ s with conn := some { c with wpol := p } }, [])
     | _, _ => (s, [])
+  | ["mstate"] =>
+    let link := match s.link with | .pending => "pending" | .down => "down" | .live => "live" | .closed => "closed"
+    let connOpen := match s.conn with | some c => !c.rd.closed | none => false
+    (s, [s!"mstate link={link} parked={s.parked} readConn={s.readConn} connOpen={connOpen} noClient={s.noClient} owed={!s.pendingAck.isEmpty} closed={s.connSemClosed} waiters={s.waiters.length}"])
+  | ["brk"] =>
+    let s := { s with prefeed := [], dials := [], fSave := false, fDel := false, fLoad := false }
+    match s.conn with
+    | some c =>
+      if !c.rd.closed then
+        done { s with conn := some { c with rd := { c.rd with inq := c.rd.inq ++ [.eof] } } } []
+      else (s, [])
+    | none => (s, [])
   | ["alias"] => (s, [])   -- aliasing has no counterpart under value semantics
   | ["sfail"] => ({ s with fSave := true }, [])
   | ["dfail"] => ({ s with fDel := true }, [])
